@@ -20,7 +20,7 @@ def named_problems(case, p, bins):
 
 
 def problems_of(case):
-    """Run the case in all five presentations.  Returns (problems, per-presentation sorted sums, calls)."""
+    """Run the case in all six presentations.  Returns (problems, per-presentation sorted sums, calls)."""
     probs, seen = [], {}
     for pres in sut.PRESENTATIONS:
         p, o = sut.run_case(case, "PartitionAndSumsTuple", pres=pres)
@@ -113,7 +113,7 @@ def valid(case):
 
 
 def legs(tier):
-    rule = ("hypothesis: any of the 19 algorithms on a C01/C03/C05 integer input, run in all five presentations (list, "
+    rule = ("hypothesis: any of the 19 algorithms on a C01/C03/C05 integer input, run in all six presentations (list, "
             "numpy array, dict with string names, dict with integer names chosen to mislead, names + value function); "
             "oracle: identical sorted sum vector in all five, named result is a partition/packing/cover of the names, "
             "values of the names reproduce the reported sums; non-trivial = >= 3 items, >= 2 distinct values and the integer "
